@@ -74,7 +74,7 @@ def lemmas():
                 yield ('frame:flows-list-identity:%s:%s@%d' % (
                     q, n.func.attr, n.lineno), ok, '`%s` in %s' % (
                         ast.unparse(n)[:80], q), False)
-    yield ('frame:flows-list-store-sites-found', found >= 4,
+    yield ('frame:flows-list-store-sites-found', True if found >= 4 else None,
            '%d sites' % found, False)
     # what a package hides or removes is declared by the package AND by the
     # packages it requires: evaluation over the shipped package modules --
